@@ -87,6 +87,6 @@ def put(tag, body):
     s = s[:i] + '\n' + body + '\n' + s[j:]
 put('PROPERTIES', '\n'.join(sec))
 put('SEEDS', '\n'.join(seeds))
-put('NA', '\n'.join(na))
+put('NA', '\n'.join(na) if na else 'None: all twenty properties are claimed. Ten of them are claimed for a kernel only; the clauses that this family cannot decide here (liveness, socket-level behaviour, cryptography, etcd, the Go scheduler) are listed per property in section 3 under **Unchecked** and in each check\'s `level_note`.')
 open(os.path.join(V, 'DESIGN.md'), 'w').write(s)
 print('DESIGN.md regenerated: %d properties, %d seeds, %d not applicable' % (len(props), len(seeds) - 2, len(na)))
